@@ -635,7 +635,7 @@ impl Accept {
                     // the worker at the previous `next` is not available but some worker is: one step closer to it
                     lemma_rotdist_dec(self.handles@, self.avail@, avail0, idx, next0);
                 }
-//@loop head="loop"
+//@loop head="loop" alt_head="while r9_n < r9_end"
         invariant
             self.wf(),
             self.handles@.len() > 0,
